@@ -85,6 +85,39 @@ def audit_sources():
     return hits
 
 
+# Generated files a property's tie depends on: what its harness declares (TABLES), else the oracle-level default
+# (only C01's and C20's request handlers read model/Generated.v), plus every generated file in the dependency
+# closure of props/<pid>.vo (read from coq_makefile's dependency file). A translator section that fails breaks
+# only the properties that depend on its file.
+DEFAULT_TABLES = {"C01": ("Generated.v",), "C20": ("Generated.v",)}
+
+
+def tables_of(pid, mod):
+    declared = set(getattr(mod, "TABLES", DEFAULT_TABLES.get(pid, ())))
+    depfile = os.path.join(COQ, ".Makefile.coq.d")
+    try:
+        deps = {}
+        for line in open(depfile, encoding="utf-8"):
+            if ":" not in line:
+                continue
+            l, r = line.split(":", 1)
+            ds = {d for d in r.split() if d.endswith(".vo")}
+            for t in l.split():
+                if t.endswith(".vo"):
+                    deps.setdefault(t, set()).update(ds)
+        seen, todo = set(), [f"props/{pid}.vo"]
+        while todo:
+            for d in deps.get(todo.pop(), ()):
+                if d not in seen:
+                    seen.add(d)
+                    todo.append(d)
+        declared |= {os.path.basename(d)[:-1] for d in seen if os.path.basename(d).startswith("Gen")}
+    except OSError:
+        declared |= {"Generated.v"}
+    return tuple(sorted(declared))
+
+
+
 def build(pid, log, tables=("Generated.v",)):
     """Regenerate tables, rebuild model/oracle, re-check props/<pid>.v.
     Returns dict(broken=[names], theorems=[names], assumptions=text, obligations, discharged)."""
@@ -248,7 +281,7 @@ def main():
     if mode == "--replay":
         path = sys.argv[3]
         rec = json.load(open(path))
-        info = build(pid, log, getattr(mod, "TABLES", ("Generated.v",)))
+        info = build(pid, log, tables_of(pid, mod))
         ctx = Ctx(pid, "quick", seed)
         if rec.get("kind") == "obligation":
             still = bool(info["broken"])
@@ -260,7 +293,7 @@ def main():
 
     tier = mode if mode in ("quick", "thorough") else "quick"
     ctx = Ctx(pid, tier, seed)
-    info = build(pid, log, getattr(mod, "TABLES", ("Generated.v",)))
+    info = build(pid, log, tables_of(pid, mod))
     broken = list(info["broken"])
     res = None
     if os.path.exists(os.path.join(VERIF, "bin", "oracle")):
